@@ -702,8 +702,9 @@ def class_of_value(ex, v):
 @builtin('isinstance')
 def _isinstance(ex, fn, args, kw, node):
     v, cls = args
-    if ex.is_unresolved(v):
-        # union-aware, no case split: Or over the alternatives whose class matches
+    if ex.is_unresolved(v) and getattr(ex, 'no_fork', 0):
+        # inside a quantifier body / speculative evaluation no case split is possible:
+        # union-aware, Or over the alternatives whose class matches
         def one(a, _b):
             r = _isinstance(ex, fn, [a, cls], kw, node)
             c = r.concrete()
